@@ -73,6 +73,7 @@ func (zzParkInbound) HandleRead(ctx InboundContext, m Message) {
 //
 //	scenario bit 0: a listener is started with Async      bit 1: an inbound connection is offered
 //	         bit 2: a client Connect runs concurrently    bit 3: the user also calls Listener.Close
+//	         bit 4: an application handler panics during activation and the exception is swallowed
 func ZZ_C13_Shutdown(scenario, queue int) {
 	fac := &zzFactory{}
 	inactives := 0
@@ -85,6 +86,13 @@ func ZZ_C13_Shutdown(scenario, queue int) {
 			inactives++
 			ctx.HandleInactive(ex)
 		}))
+		if scenario&16 != 0 {
+			// an application handler fails during activation and the application's exception handler swallows it:
+			// the channel stays open (and must still be closed by Shutdown)
+			ch.Pipeline().AddLast(ActiveHandlerFunc(func(ctx ActiveContext) {
+				panic("zz: activation failure")
+			}), &zzExc{mode: 2})
+		}
 	}
 	factory := NewChannel()
 	if queue > 0 {
@@ -153,4 +161,36 @@ func ZZ_C13_Shutdown(scenario, queue int) {
 	vrt.Assert(!dead, "c13-no-goroutine-left-blocked")
 	_ = served
 	vrt.Reach("c13-done")
+}
+
+// ZZ_C13_Relisten: a listener is closed before its accept loop was started, the same address is listened on again
+// and started, and only then the first listener's accept loop is started (late Async); Shutdown runs concurrently.
+// The closed listener must not start accepting; after Shutdown nothing is left accepting and every acceptor the
+// factory created is closed.
+func ZZ_C13_Relisten(lateFirst int) {
+	fac := &zzFactory{}
+	initializer := func(ch Channel) { ch.Pipeline().AddLast(zzParkInbound{}) }
+	bs := NewBootstrap(WithTransport(fac), WithChildInitializer(initializer), WithClientInitializer(initializer), WithChannel(NewChannel()))
+	l1 := bs.Listen("zz://zz:1")
+	l1.Close()
+	l2 := bs.Listen("zz://zz:1")
+	cb1, cb2 := 0, 0
+	var err1 error
+	if lateFirst != 0 {
+		l2.Async(func(err error) { cb2++ })
+		l1.Async(func(err error) { err1 = err; cb1++ })
+	} else {
+		l1.Async(func(err error) { err1 = err; cb1++ })
+		l2.Async(func(err error) { cb2++ })
+	}
+	bs.Shutdown()
+	dead := vrt.Quiesce()
+	vrt.Assert(!dead, "c13-no-goroutine-left-blocked")
+	for _, a := range fac.acceptors {
+		vrt.Assert(a.closes >= 1, "c13-every-acceptor-closed")
+		vrt.Assert(a.inAccept == 0, "c13-no-listener-left-accepting")
+	}
+	vrt.Assert(cb1 == 1 && cb2 == 1, "c13-accept-loop-ends")
+	vrt.Assert(err1 != nil, "c13-accept-loop-ends-with-an-error")
+	vrt.Reach("c13-relisten-done")
 }
